@@ -377,7 +377,7 @@ def deiso(tree):
     return {"g": [group(g) for g in tree["g"]], "s": tree["s"], "d": tree["d"]}
 
 
-def compound_ref(comp_f, masses, density, e, exact=None):
+def compound_ref(comp_f, masses, density, e, exact=None, w=tc.WINDOW):
     """Reference for (rho, irho) at energy e: per column (lo, hi, nan_ok, certain_nan, tol) already in SLD
     units, or None if e touches a non-monotonic stretch of a constituent table.  *exact* = (symbol, row):
     e is exactly that served node of that table, whose tabulated value is then required."""
@@ -389,7 +389,7 @@ def compound_ref(comp_f, masses, density, e, exact=None):
         nan_ok = certain = False
         for k, n in comp_f.items():
             t = nff(env()["table"][k[0]].symbol)
-            acc = t.accept(col, e, exact_row=(exact[1] if exact is not None and exact[0] == t.symbol else None))
+            acc = t.accept(col, e, w=w, exact_row=(exact[1] if exact is not None and exact[0] == t.symbol else None))
             if acc is None:
                 return None
             a, b, nk, s = acc
@@ -809,6 +809,212 @@ def _fresnel(n, lam, angle_deg, rough):
 
 
 # ----------------------------------------------------------------------
+# unusual but legitimate inputs: all counts scaled by one factor, tiny densities, argument types
+SCALAR_TYPES = ["int", "np.int64", "np.float64", "np.float32", "0d-array", "0d-int-array"]
+VECTOR_TYPES = ["int-list", "int-tuple", "int-ndarray", "float-tuple", "len1-list", "len1-tuple", "len1-ndarray",
+                "float32-ndarray"]
+COUNT_ROUTES = ["plain", "dict", "dict", "formula-mul", "formula-mul", "string-group"]
+
+
+def spell_scale(x):
+    """(decimal spelling in the formula grammar, exact value) of about 10**x with 3 significant digits."""
+    from decimal import Decimal
+    e = math.floor(x)
+    mant = int(round(10 ** (x - e) * 100))
+    d = Decimal(mant) * Decimal(10) ** (e - 2)
+    text = format(d, "f")
+    if "." in text:
+        text = text.rstrip("0")
+    if text.startswith("0."):
+        text = text[1:]
+    return text, Fraction(mant) * Fraction(10) ** (e - 2)
+
+
+def make_arg(np, etype, vals):
+    """The energy/wavelength argument of type *etype* for the float/int values *vals*;
+    returns (argument, values as the library must understand them, vector?)."""
+    if etype in SCALAR_TYPES:
+        v = vals[0]
+        arg = {"int": lambda: int(v), "np.int64": lambda: np.int64(v), "np.float64": lambda: np.float64(v),
+               "np.float32": lambda: np.float32(v), "0d-array": lambda: np.array(float(v)),
+               "0d-int-array": lambda: np.array(int(v))}[etype]()
+        return arg, [float(arg)], False
+    if etype.startswith("len1"):
+        vals = vals[:1]
+    arg = {"int-list": lambda: [int(v) for v in vals], "int-tuple": lambda: tuple(int(v) for v in vals),
+           "int-ndarray": lambda: np.array([int(v) for v in vals], dtype=np.int64),
+           "float-tuple": lambda: tuple(float(v) for v in vals),
+           "len1-list": lambda: [float(vals[0])], "len1-tuple": lambda: (float(vals[0]),),
+           "len1-ndarray": lambda: np.array([float(vals[0])]),
+           "float32-ndarray": lambda: np.array(vals, dtype=np.float32)}[etype]()
+    return arg, [float(v) for v in arg], True
+
+
+def check_unusual(ctx, value):
+    tree, dens_exp, scale_exp, croute, ref_idx, especs, ints, mode, etype, positional, k2_exp = value
+    E = env()
+    np, pt, xsf, table, pool = E["np"], E["pt"], E["xsf"], E["table"], E["pool"]
+    case = {"kind": "unusual", "value": value}
+    s = fa.render(tree)
+    comp = fa.composition(pool, tree)
+    keys = sorted(comp)
+    specs = [a[1] for a, _ in fa.atoms_of(tree["g"])]
+    has_dt_ion = any(is_dt_ion(sp) for sp in specs)
+    tab = nff(table[keys[ref_idx % len(keys)][0]].symbol)
+    density = 10.0 ** dens_exp
+    key = "energy" if mode == "E" else "wavelength"
+    integer = "int" in etype
+    f32 = "float32" in etype
+    # values of the argument
+    if integer:
+        raw = [1 + i % (30 if mode == "E" else 400) for i in ints]
+    else:
+        es0 = [to_energy(tab, sp) for sp in especs]
+        raw = es0 if mode == "E" else [HC / e for e in es0]
+    arg, vals, vector = make_arg(np, etype, raw)
+    es = vals if mode == "E" else [HC / v for v in vals]
+    n = len(es)
+    # a float32 wavelength is turned into an energy in float32 arithmetic
+    w = 2.0 ** -21 if (f32 and mode == "W") else tc.WINDOW
+    # count scale
+    if croute == "plain":
+        scale_exp = 0.0
+    k = 10.0 ** scale_exp
+    text = None
+    if croute == "string-group":
+        text, kf = spell_scale(scale_exp)
+        k = float(kf)
+    cls = ["unusual", "counts:" + croute, "scale:1e%+03d" % (3 * math.floor(scale_exp / 3)),
+           "density:1e%+03d" % (3 * math.floor(dens_exp / 3)), "argtype:" + etype, "route:" + mode,
+           "compound:" + ("positional" if positional else "keyword")]
+    ctx.case(("unusual", s, croute, scale_exp, dens_exp, mode, etype, bool(positional), tuple(vals)),
+             nontrivial=(abs(scale_exp) >= 6 or dens_exp <= -6 or etype not in ("np.float64", "len1-list")),
+             sample={"compound": s, "count_scale": k, "counts_via": croute, "density": density, key: repr(arg)}, cls=cls)
+    try:
+        f = pt.formula(s)
+        got_comp = dict((atom_key(a), float(c)) for a, c in f.atoms.items())
+    except Exception:  # noqa
+        ctx.inconclusive += 1
+        ctx.count("inconclusive:formula-rejected")
+        return
+    comp_f = dict((kk, float(v)) for kk, v in comp.items())
+    if set(got_comp) != set(comp_f) or any(not same(got_comp[kk], comp_f[kk], 1e-12) for kk in comp_f):
+        ctx.inconclusive += 1
+        ctx.count("inconclusive:composition-differs")
+        return
+    if croute == "plain":
+        cobj, shown = f, repr(s)
+    elif croute == "dict":
+        cobj = dict((a, c * k) for a, c in f.atoms.items())
+        shown = "{%s}" % ", ".join("%s: %r" % (a, c) for a, c in cobj.items())
+    elif croute == "formula-mul":
+        cobj = lib_call(case, "n*formula", lambda: k * f)
+        shown = "%r*formula(%r)" % (k, s)
+    else:
+        cobj = "(%s)%s" % (s, text)
+        shown = repr(cobj)
+        try:
+            g = pt.formula(cobj)
+            gc = dict((atom_key(a), float(c)) for a, c in g.atoms.items())
+        except Exception:  # noqa
+            ctx.inconclusive += 1
+            ctx.count("inconclusive:formula-rejected")
+            return
+        if set(gc) != set(comp_f) or any(not same(gc[kk], comp_f[kk] * k, 1e-12) for kk in comp_f):
+            ctx.inconclusive += 1
+            ctx.count("inconclusive:composition-differs")
+            return
+    comp_k = dict((kk, v * k) for kk, v in comp_f.items())
+    masses = dict((kk, key_to_atom(table, kk).mass) for kk in keys)
+    refs = [compound_ref(comp_k, masses, density, e, w=w) for e in es]
+    if any(r is None for r in refs):
+        ctx.count("excluded:nonmonotonic-interval")
+        return
+
+    def unpack(r, what):
+        a, b = r
+        if vector:
+            if not (is_vector(np, a, n) and is_vector(np, b, n)):
+                raise Violation("c05:unusual:shape", "%s: %s of length %d returned %r" % (what, etype, n, getattr(a, "shape", type(a))), case)
+            return a, b
+        if not (is_scalar(np, a) and is_scalar(np, b)):
+            raise Violation("c05:unusual:shape", "%s: scalar-like %s returned %r" % (what, etype, getattr(a, "shape", type(a))), case)
+        return [a], [b]
+
+    # 1. xray_sld, counts scaled: same SLD as the unscaled compound
+    what = "xray_sld(%s, density=%r, %s=%r)" % (shown, density, key, arg)
+    if positional:
+        r = lib_call(case, "xray_sld", lambda: xsf.xray_sld(cobj, density=density, **{key: arg}), has_dt_ion)
+    else:
+        r = lib_call(case, "xray_sld", lambda: xsf.xray_sld(compound=cobj, density=density, **{key: arg}), has_dt_ion)
+    rho, irho = unpack(r, what)
+    tag = "scaled-counts" if croute != "plain" else "argtype"
+    for i in range(n):
+        judge_sld(rho[i], refs[i][0], "c05:unusual:%s:rho" % tag, what + " rho[%d]" % i, case)
+        judge_sld(irho[i], refs[i][1], "c05:unusual:%s:irho" % tag, what + " irho[%d]" % i, case)
+    # 2. linear in density, down to very small densities
+    k2 = 10.0 ** k2_exp
+    rk, ik = unpack(lib_call(case, "xray_sld", lambda: xsf.xray_sld(cobj, density=density * k2, **{key: arg}), has_dt_ion), "density*k")
+    for i in range(n):
+        if not (same(rk[i], k2 * float(rho[i]), 1e-12) and same(ik[i], k2 * float(irho[i]), 1e-12)):
+            raise Violation("c05:unusual:density-linear", "%s -> (%r, %r); density*%r -> (%r, %r)"
+                            % (what, rho[i], irho[i], k2, rk[i], ik[i]), case)
+    # 3. the reference atom on its own: scattering_factors and Xray.sld with the same argument
+    el = table.symbol(tab.symbol)
+    f1, f2 = unpack(lib_call(case, "scattering_factors", lambda: el.xray.scattering_factors(**{key: arg})), "scattering_factors")
+    for i, e in enumerate(es):
+        for col, got in ((1, f1[i]), (2, f2[i])):
+            acc = tab.accept(col, e, w=w)
+            if acc is not None:
+                judge(got, acc, "c05:unusual:factors:f%d" % col, "%s.xray.scattering_factors(%s=%r) f%d[%d]" % (el.symbol, key, arg, col, i),
+                      case, tab, e)
+    if el.density is not None:
+        K = R_E * N_A * el.density / el.mass * 1e-8
+        r1, r2 = unpack(lib_call(case, "Xray.sld", lambda: el.xray.sld(**{key: arg})), "Xray.sld")
+        for i, e in enumerate(es):
+            for col, got in ((1, r1[i]), (2, r2[i])):
+                acc = tab.accept(col, e, w=w)
+                if acc is not None:
+                    judge(got, acc, "c05:unusual:element-sld:%s" % ("rho", "irho")[col - 1],
+                          "%s.xray.sld(%s=%r)[%d][%d]" % (el.symbol, key, arg, col - 1, i), case, tab, e,
+                          extra_tol=1e-12 * K * acc[3], factor=K)
+    if f32:
+        return          # lambda**2 in float32 limits n and R to ~1e-7: not judged
+    # 4. index of refraction and mirror reflectivity of the scaled compound
+    lam = [HC / e for e in es]
+    nn = lib_call(case, "index_of_refraction", lambda: xsf.index_of_refraction(cobj, density=density, **{key: arg}), has_dt_ion)
+    if vector and not is_vector(np, nn, n) or (not vector and not is_scalar(np, nn)):
+        raise Violation("c05:unusual:shape", "index_of_refraction with %s returned %r" % (etype, getattr(nn, "shape", type(nn))), case)
+    nn = nn if vector else [nn]
+    for i in range(n):
+        c = lam[i] ** 2 / (2 * math.pi) * 1e-6
+        ref = refs[i]
+        anynan = ref[0][2] or ref[1][2]
+        z = complex(nn[i])
+        whatn = "index_of_refraction(%s, density=%r, %s=%r)[%d]" % (shown, density, key, arg, i)
+        judge_sld(1.0 - z.real, ref[0][:2] + (anynan,) + ref[0][3:], "c05:unusual:refraction:real", "1 - Re " + whatn, case, factor=c, floor=4 * EPS)
+        judge_sld(-z.imag, ref[1][:2] + (anynan, False) + ref[1][4:], "c05:unusual:refraction:imag", "-Im " + whatn, case, factor=c, floor=1e-300)
+
+    def mirror():
+        with np.errstate(all="ignore"):
+            return xsf.mirror_reflectivity(cobj, density=density, angle=2.0, roughness=3.0, **{key: arg})
+    R = lib_call(case, "mirror_reflectivity", mirror, has_dt_ion)
+    if not (isinstance(R, np.ndarray) and R.shape == (1, n)):
+        raise Violation("c05:unusual:shape", "mirror_reflectivity with %s returned %r" % (etype, getattr(R, "shape", type(R))), case)
+    for i in range(n):
+        ref = refs[i]
+        if ref[0][2] or ref[1][2] or ref[0][3] or ref[1][3]:
+            continue
+        got = float(R[0, i])
+        c = lam[i] ** 2 / (2 * math.pi) * 1e-6
+        want = [_fresnel(complex(1 - c * rr, -c * ii), lam[i], 2.0, 3.0) for rr in ref[0][:2] for ii in ref[1][:2]]
+        lo, hi = min(want), max(want)
+        if not (0.0 <= got <= 1.0 + 1e-12) or not (lo * (1 - 1e-6) - 1e-15 <= got <= hi * (1 + 1e-6) + 1e-15):
+            raise Violation("c05:unusual:reflectivity", "mirror_reflectivity(%s, density=%r, %s=%r, angle=2, roughness=3)[0,%d] = %r, "
+                            "the tables give %r" % (shown, density, key, arg, i, got, 0.5 * (lo + hi)), case)
+
+
+# ----------------------------------------------------------------------
 # f0
 Q_FIXED = [["abs", 0.0], ["small", 9], ["small", 3], ["abs", 0.1], ["abs", 1.0], ["abs", 5.0],
            ["abs", 4 * math.pi], ["abs", 20.0], ["abs", 50.0], ["lim", -10 ** 6], ["lim", -1], ["lim", 0],
@@ -1022,6 +1228,22 @@ def task_scans(ctx, n_atom, n_compound):
         ctx.search("scan-compound", sc, lambda c, v: check_scan_compound(c, v), n_compound)
 
 
+def tails(lo, hi, width):
+    """Uniform over [lo, hi] with a third of the draws in the outer *width* at either end."""
+    return st.one_of(st.floats(lo, hi), st.floats(lo, hi), st.floats(lo, lo + width), st.floats(hi - width, hi))
+
+
+def task_unusual(ctx, n):
+    pool = env()["pool"]
+    # the cheap choices are drawn before the tree so that a long tree cannot starve them
+    strat = st.tuples(tails(-12.0, 2.0, 3.0), tails(-14.0, 12.0, 4.0), st.sampled_from(COUNT_ROUTES), st.integers(0, 50),
+                      st.lists(energy_spec_compound(), min_size=3, max_size=3), st.lists(st.integers(0, 10 ** 6), min_size=3, max_size=3),
+                      st.sampled_from(["E", "E", "W"]), st.sampled_from(SCALAR_TYPES + VECTOR_TYPES), st.booleans(),
+                      st.floats(-6.0, 6.0),
+                      fa.compound(pool, depth=1, max_groups=2, max_atoms=3, density=False)).map(lambda t: [t[-1]] + list(t[:-1]))
+    ctx.search("unusual", strat, lambda c, v: check_unusual(c, v), n)
+
+
 def task_f0(ctx, n, sweep=True):
     E = env()
     syms = E["f0_syms"]
@@ -1039,7 +1261,7 @@ def task_f0(ctx, n, sweep=True):
 
 
 def tasks(tier):
-    out = [("sweep-%d" % k, task_sweep, dict(shard=k, nshards=4)) for k in range(4)]
+    out = [("sweep-%d" % k, task_sweep, dict(shard=k, nshards=3)) for k in range(3)]
     if tier == "quick":
         out += [("factors-a", task_factors, dict(n=1750)),
                 ("factors-b", task_factors, dict(n=1750)),
@@ -1048,7 +1270,8 @@ def tasks(tier):
                 ("f0", task_f0, dict(n=1500)),
                 ("f0-generated", task_f0, dict(n=1500, sweep=False)),
                 ("scan-atoms", task_scans, dict(n_atom=600, n_compound=0)),
-                ("scan-compounds", task_scans, dict(n_atom=0, n_compound=250))]
+                ("scan-compounds", task_scans, dict(n_atom=0, n_compound=250)),
+                ("unusual", task_unusual, dict(n=400))]
         out += [("compounds-%d" % k, task_compounds, dict(n=250, depth=k % 3)) for k in range(4)]
         return out
     for k in range(4):
@@ -1060,6 +1283,8 @@ def tasks(tier):
     out.append(("f0", task_f0, dict(n=50000)))
     out.append(("scans-0", task_scans, dict(n_atom=8000, n_compound=3000)))
     out.append(("scans-1", task_scans, dict(n_atom=8000, n_compound=3000)))
+    out.append(("unusual-0", task_unusual, dict(n=6000)))
+    out.append(("unusual-1", task_unusual, dict(n=6000)))
     return out
 
 
@@ -1073,6 +1298,8 @@ def replay(ctx, case):
         check_compound(ctx, case["value"])
     elif kind == "f0":
         check_f0(ctx, case["value"])
+    elif kind == "unusual":
+        check_unusual(ctx, case["value"])
     elif kind == "scan-atom":
         check_scan_atom(ctx, case["value"])
     elif kind == "scan-compound":
